@@ -230,6 +230,18 @@ class Model(object):
     def op_sum_items(self, s, t, _t):
         return self.expect((self.usable(s)["value"] + self.usable(t)["value"],))
 
+    def op_item_combine(self, s, t, _t):
+        return self.expect((self.usable(s)["value"] * 3 + self.usable(t)["value"],))
+
+    def op_pass_item(self, s, _b, _t):
+        # by-value argument: the wrapper passes a copy; the copy lives only during the call
+        return self.expect((self.usable(s)["value"] + 5,))
+
+    def op_vec_dot(self, a, b, _t):
+        va = list(range(1, a + 1))
+        vb = [2 * i for i in range(1, b + 1)]
+        return self.expect((sum(x * y for x, y in zip(va, vb)) + 1000 * a + 10 * b,))
+
     def op_assign(self, s, t, _t):
         hd = self.handle(s)
         if self.driver == "py":
@@ -536,7 +548,7 @@ OPS_COMMON = ["item_default", "item_val", "item_delete", "item_value", "item_set
               "vec_sum", "vec_iota", "vec_inc", "vec_alloc", "vec_ret", "vec_str_count",
               "arr_new", "arr_lib", "arr_new_alloc", "cap_delete", "cap_scope",
               "arr_pat", "arr_sum", "char_grow", "ref_item", "vec_ret_d", "char_arr",
-              "str_ptr_in", "str_val_in", "char_ret_len", "char_ret_null", "vec_iota_d", "arr_fill_out", "vec_ret_l", "vec_inout_alloc", "str_ptr_out"]
+              "str_ptr_in", "str_val_in", "char_ret_len", "char_ret_null", "vec_iota_d", "arr_fill_out", "vec_ret_l", "vec_inout_alloc", "str_ptr_out", "item_combine", "pass_item", "vec_dot"]
 
 TEXTS = ["", " ", "a", "hello", "two words", "  lead", "trail  ", "exactly-twenty-chars", "x" * 40,
          "MiXeD 123 !?", "tab-less ~ text", "ends with blank "]
@@ -567,7 +579,11 @@ def gen_op(rng, model, enabled, uniq):
     if name in ("item_default", "borrow_item", "default_item", "item_delete", "item_value", "item_label",
                 "use_item", "box_value", "item_release", "ref_item"):
         return [name, s]
-    if name in ("item_twin", "sum_items", "assign"):
+    if name == "vec_dot":
+        return [name, lengths(rng), lengths(rng)]
+    if name == "pass_item":
+        return [name, s]
+    if name in ("item_twin", "sum_items", "assign", "item_combine"):
         return [name, s, t]
     if name in ("str_ref", "str_lib", "arr_lib"):
         return [name]
@@ -631,14 +647,14 @@ def gen_op(rng, model, enabled, uniq):
     return None
 
 
-LEAKABLE = ["item_value", "item_label", "use_item", "sum_items", "box_value", "str_ref", "str_val", "str_lib",
+LEAKABLE = ["item_value", "item_label", "use_item", "sum_items", "item_combine", "vec_dot", "box_value", "str_ref", "str_val", "str_lib",
             "str_in", "str_ptr_in", "str_val_in", "char_ret_len", "str_out", "str_inout", "char_out", "char_ret", "vec_sum", "vec_iota", "vec_alloc", "vec_ret",
             "arr_lib", "arr_sum", "arr_fill_out", "char_arr", "bad_vec_sum", "bad_arg", "bad_arr_sum"]
 PY_ONLY = ["box_delete", "bad_vec_sum", "bad_arg", "nomem", "bad_arr_sum"] + ["leak_" + n for n in LEAKABLE]
 # char_inout: the Python wrapper hands the str object's own UTF-8 buffer to the library, which
 # upper-cases it in place and thereby corrupts interned strings of the interpreter (a C03 defect;
 # it would make later *values* wrong, so the op is not generated for Python)
-NOT_PY = ["copy_item", "vec_inc", "vec_str_count", "cap_delete", "cap_scope", "char_inout", "char_grow", "vec_ret_d", "vec_iota_d", "vec_ret_l", "vec_inout_alloc"]
+NOT_PY = ["copy_item", "vec_inc", "vec_str_count", "cap_delete", "cap_scope", "char_inout", "char_grow", "vec_ret_d", "vec_iota_d", "vec_ret_l", "vec_inout_alloc", "pass_item"]
 
 
 C_ONLY = ["item_release", "box_release", "cstr_ref", "cstr_lib", "cstr_owned", "cstr_in", "cstr_out", "cstr_inout"]
